@@ -34,6 +34,26 @@ pub fn run(_args: &[String]) -> anyhow::Result<()> {
         let c = b as char;
         c.to_lowercase().collect::<String>() == c.to_ascii_lowercase().to_string()
     });
-    println!("{}", json!({"alnum": alnum, "white": white, "lower_to_ascii": lower_ascii, "ascii_lower_ok": ascii_ok}));
+    // the live tables of the implementation (the second tie of the generated Lean tables: the translator reads the source,
+    // these are read from the running code): registered suffix -> grammar class (smallest suffix sharing the same parser
+    // object), and the names of the validator detectors in order
+    let parsers = blockwatch::language_parsers::language_parsers()?;
+    let mut ext_live: Vec<(String, String)> = vec![];
+    for (k, p) in parsers.iter() {
+        let mut class: Vec<String> = parsers
+            .iter()
+            .filter(|(_, q)| std::rc::Rc::ptr_eq(p, q))
+            .map(|(e, _)| e.to_string_lossy().into_owned())
+            .collect();
+        class.sort();
+        ext_live.push((k.to_string_lossy().into_owned(), class[0].clone()));
+    }
+    ext_live.sort();
+    let detectors_live: Vec<&str> = blockwatch::validators::DETECTOR_FACTORIES.iter().map(|(n, _)| *n).collect();
+    println!(
+        "{}",
+        json!({"alnum": alnum, "white": white, "lower_to_ascii": lower_ascii, "ascii_lower_ok": ascii_ok,
+               "ext_live": ext_live, "detectors_live": detectors_live})
+    );
     Ok(())
 }
